@@ -359,7 +359,7 @@ class Exec:
             if md and md.group(1)[0].isupper() and '<impl' not in name:
                 s.defaults[(md.group(1), md.group(2))] = lst
             f0 = lst[0]
-            mc = re.match(r'&(?:mut )?(\{closure@[^}]+\})', f0.ptypes[0]) if f0.ptypes else None
+            mc = re.match(r'(?:&(?:mut )?)?(\{closure@[^}]+\})', f0.ptypes[0]) if f0.ptypes else None
             if mc and '{closure#' in name:
                 s.closures[mc.group(1)] = f0
         for name, lst in fns.items():
@@ -1377,9 +1377,10 @@ class Exec:
         clo = st.get(cc, ())
         if isinstance(clo, dict) and '__closure__' in clo:
             fn = s.closures[clo['__closure__']]
+            me = Ref(cc, ()) if fn.ptypes[0].startswith('&') else clo      # FnOnce closures take themselves by value
             if len(fn.params) == 2 and len(args) == 2:
-                return s.run_fn(st, fn, [Ref(cc, ()), dict(enumerate(args))])
-            return s.run_fn(st, fn, [Ref(cc, ())] + args)
+                return s.run_fn(st, fn, [me, dict(enumerate(args))])
+            return s.run_fn(st, fn, [me] + args)
         return s.extern_call(st, args, where, 'f')
 
     # ---------------------------------------------------------------- calls
@@ -1493,6 +1494,30 @@ class Exec:
                 return R(p)
             if op == 'drop_in_place':
                 return s.drop_slice(st, Slice(p.arr, p.idx, p.idx + 1), where)
+        md = re.match(r'^(?:core::)?(?:mem::)?drop::<(.*)>$', c)
+        if md:      # mem::drop(value): the type-directed drop glue of the value, here and now
+            tmp = st.new_cell(args[0])
+            return [(s1, 'ret' if k == 'ret' else 'unwind', UNIT if k == 'ret' else None) for (s1, k) in s.drop_value(st, {'_tmp': tmp}, '_tmp', md.group(1), where)]
+        ml = re.match(r'^(?:core::slice::)?<impl \[T\]>::(first|last)(_mut)?$', c)
+        if ml:
+            sl = args[0]
+            if isinstance(sl, ArrRef):
+                sl = Slice(sl.arr, bv(0), sl.arr.len)
+            if sl.stride is not None:
+                raise NotImplementedError('first/last of a slice of chunks')
+            outs = []
+            if s.feasible(st, sl.start == sl.end):
+                s1 = st.clone(); s1.pc.append(sl.start == sl.end); outs.append((s1, 'ret', Enum('None', {})))
+            if s.feasible(st, ULT(sl.start, sl.end)):
+                s2 = st.clone(); s2.pc.append(ULT(sl.start, sl.end))
+                outs.append((s2, 'ret', Enum('Some', {0: ElemPtr(sl.arr, sl.start if ml.group(1) == 'first' else sl.end - 1)})))
+            return outs
+        mo = re.match(r'^Option::<.*>::map::<', c)
+        if mo and isinstance(args[0], Enum):
+            if args[0].variant == 'None':
+                return R(Enum('None', {}))
+            cc = st.new_cell(args[1])
+            return [(s1, k, Enum('Some', {0: v}) if k == 'ret' else None) for (s1, k, v) in s.call_closure2(st, cc, [args[0].fields[0]], where)]
         # ---- ManuallyDrop / MaybeUninit / mem
         if re.match(r'ManuallyDrop::<.*>::new', c):
             return R(args[0])
